@@ -113,12 +113,13 @@ def reached(db, f):
     for ff, ev, bn in api_calls(db, f):
         out.append((T.short(bn) if ev.get('k') == 'call' else 'ctor:' + T.short(bn),
                     T.basename(ev.get('mcls') or ev.get('cls') or '')))
-    # one level through file-local helpers (level_set(...))
+    # one level through file-local helpers (level_set(...)) and through a sibling extern "C" wrapper the wrapper
+    # forwards to (manifold_get_meshgl -> manifold_get_meshgl_w_normals)
     for b in f['blocks']:
         for ev in b['ev']:
             if ev.get('k') == 'call' and ev.get('fk') in db.functions:
                 callee = db.functions[ev['fk']]
-                if callee['file'].startswith('bindings/c/') and not callee.get('externC') and \
+                if callee['file'].startswith('bindings/c/') and callee is not f and \
                         T.short(callee['name']) not in ('to_c', 'from_c'):
                     for ff, ev2, bn in api_calls(db, callee):
                         out.append((T.short(bn) if ev2.get('k') == 'call' else 'ctor:' + T.short(bn),
@@ -711,6 +712,107 @@ def rule8(chk, db, cfgname, tab):
     chk.count('c20.r8.seq_pairs', n)
 
 
+def const_value(n):
+    n = T.strip_copy(n)
+    if n.get('k') in ('int', 'flt'):
+        return n['v']
+    if n.get('k') == 'bool':
+        return bool(n['v'])
+    if n.get('k') == 'un' and n.get('op') == '-':
+        v = const_value(n['e'])
+        return -v if v is not None else None
+    if n.get('k') == 'nullptr':
+        return 'nullptr'
+    return None
+
+
+def rule9(chk, db, cfgname):
+    chk.rule('C20.R9', 'a wrapper that forwards to a sibling extern "C" wrapper with a constant argument passes the '
+             'value the C++ API uses as the default of the parameter that argument finally reaches (the shorter '
+             'wrapper mirrors the C++ call with the argument omitted)')
+    defs = wrappers(db)
+    n = 0
+    for name, f in sorted(defs.items()):
+        for b in f['blocks']:
+            for ev in b['ev']:
+                if ev.get('k') != 'call' or ev.get('fk') not in db.functions:
+                    continue
+                sib = db.functions[ev['fk']]
+                if not sib.get('externC') or sib is f:
+                    continue
+                for j, a in enumerate(ev.get('args', [])):
+                    c = const_value(a)
+                    if c is None or j >= len(sib['params']):
+                        continue
+                    pname = sib['params'][j]['n']
+                    # where does the sibling hand this parameter to the C++ API?
+                    for ff, ev2, bn in api_calls(db, sib):
+                        callee = db.functions.get(ev2.get('fk')) if ev2.get('fk') else None
+                        if callee is None:
+                            continue
+                        for i, a2 in enumerate(ev2.get('args', [])):
+                            a0 = T.strip_copy(a2)
+                            if a0.get('k') == 'var' and a0.get('n') == pname and i < len(callee['params']) and \
+                                    callee['params'][i].get('def') is not None:
+                                d = const_value(callee['params'][i]['def'])
+                                n += 1
+                                ok = d is not None and d == c
+                                chk.obligation(ok, {'wrapper': name, 'forwards to': sib['name'], 'constant': c,
+                                                    'reaches': '%s(%s)' % (T.short(bn), callee['params'][i]['n']),
+                                                    'C++ default': d})
+                                if not ok:
+                                    chk.violation('C20.R9', f, '%s forwards %s=%s, C++ default %s' % (name, pname, c, d),
+                                                  '%s forwards to %s with %s = %s, which reaches %s(%s); the C++ call '
+                                                  'it mirrors leaves that argument at its default %s, so the two '
+                                                  'disagree' % (name, sib['name'], pname, c, T.short(bn),
+                                                                callee['params'][i]['n'], d),
+                                                  line=ev.get('ln'), cfg=cfgname)
+    chk.count('c20.r9.forwarded_constants', n)
+
+
+def rule10(chk, db, cfgname):
+    chk.rule('C20.R10', 'a binding function that receives the caller\'s buffer `mem` and returns a pointer returns that '
+             'buffer on every path: each return value is rooted at mem (a cast of it, a local initialised from it, a '
+             'placement-new at it, or a call that is handed mem) - never nullptr or another pointer (the documented '
+             'idiom is p = getter(malloc(n), x); ... free(p))')
+    n = 0
+    for f in db.functions.values():
+        if not f.get('blocks') or not f['file'].startswith('bindings/c/'):
+            continue
+        if not any(p['n'] == 'mem' for p in f['params']):
+            continue
+        rt = db.T(f, f['ret']) if isinstance(f.get('ret'), int) else {}
+        if not rt.get('ptr') and not (rt.get('c') or '').rstrip().endswith('*'):
+            continue
+        derived = {'mem'}
+        changed = True
+        while changed:
+            changed = False
+            for b in f['blocks']:
+                for e in b['ev']:
+                    if e.get('k') == 'decl':
+                        for v in e['vars']:
+                            if v.get('init') is not None and v['n'] not in derived and any(
+                                    isinstance(y, dict) and y.get('k') == 'var' and y.get('n') in derived
+                                    for y in T.walk(v['init'])):
+                                derived.add(v['n'])
+                                changed = True
+        for b in f['blocks']:
+            for e in b['ev']:
+                if e.get('k') != 'return' or 'e' not in e:
+                    continue
+                n += 1
+                ok = any(isinstance(y, dict) and y.get('k') == 'var' and y.get('n') in derived for y in T.walk(e['e']))
+                chk.obligation(ok, {'function': f['key'].split(' :: ')[0][:60], 'line': e.get('ln'),
+                                    'returns': T.pstr(e['e'])[:40], 'rooted at mem': ok})
+                if not ok:
+                    chk.violation('C20.R10', f, 'returns %s instead of mem' % T.pstr(e['e'])[:30],
+                                  'a path returns %s, which is not the caller\'s buffer: the caller loses the pointer it '
+                                  'must free (or dereferences null)' % T.pstr(e['e'])[:40], line=e.get('ln'),
+                                  cfg=cfgname)
+    chk.count('c20.r10.mem_returns', n)
+
+
 def main(chk, tier):
     import db as D
     configs = ['seq'] if tier == 'quick' else ['seq', 'par']
@@ -728,7 +830,10 @@ def main(chk, tier):
         rule6(chk, db, cfgname, tab)
         rule7(chk, db, cfgname, tab)
         rule8(chk, db, cfgname, tab)
+        rule9(chk, db, cfgname)
+        rule10(chk, db, cfgname)
     n = len(configs)
+    chk.floor('c20.r10.mem_returns', 80 * n)
     chk.floor('c20.r1.declarations', 280 * n)
     chk.floor('c20.r2.wrappers', 100 * n)
     chk.floor('c20.r3.bound_arguments', 80 * n)
